@@ -1,11 +1,30 @@
 ENGINES = [
     {"name": "E1 choice-point explorer", "path": "src/verifx/h/explore.go", "serves_properties": ["C01", "C08", "C15", "C16", "C17", "C18"], "kind_free_text": "stateless deviation-bounded enumeration of choice vectors over generators written against Choose(n,label); replays a prefix and fails loudly on divergence"},
     {"name": "bounded-exhaustive product enumerators", "path": "src/inj/stack/agg_test.go", "serves_properties": ["C04", "C05", "C12", "C13"], "kind_free_text": "all multisets/permutations/triples over a finite universe, against reference models written from the property text"},
+    {"name": "E2 explicit-state product search", "path": "src/inj/stack/bfs_test.go", "serves_properties": ["C02", "C03", "C07"], "kind_free_text": "BFS over (real scanningState, reference automaton R-line) with replay-from-root successors, canonical fine state key, trace validation through the public ScanSnapshot resume loop"},
     {"name": "driver", "path": "lib/driver.py", "serves_properties": [], "kind_free_text": "overlay build of the working tree, 16 shard processes, merge, known-finding classification, evidence writer"},
 ]
 NOTES = "Every deciding step is an exhaustive enumeration within stated bounds (see evidence coverage.rule and DESIGN.md). Exit 2 = harness could not be built/run against the tree (no verdict)."
 NA = {}
 TEXT = {
+    "C02": {
+        "engine": "E2 explicit-state product search",
+        "technique": "explicit-state BFS over (real scanner state x reference automaton state) + replay of every explored trace through the public API",
+        "text": "Breadth-first search to an empty frontier over pairs (real scanningState, reference line automaton) with a 66-symbol line alphabet under LF and CRLF; every explored (state, symbol) trace, alone and followed by junk, is replayed through the public ScanSnapshot resume loop and the bytes forwarded + final remainder must be the stream minus exactly the model's dump lines (one blank after a dump may go either way), every remainder being the stream's bytes at its position. Plus the junk x dump stream product and the end-to-end CLI runs.",
+        "note": "Reference automaton src/verifx/rline/model.go is the trusted base; binds to the unexported scanningState.scan for the state key. Known finding: a stream ending right after a race preamble (pinned by three repository tests).",
+    },
+    "C07": {
+        "engine": "E2 explicit-state product search",
+        "technique": "explicit-state BFS over (real scanner state x reference automaton state) + replay of every explored trace through the public API",
+        "text": "Same product search: every sequence of line kinds within caps from every reachable scanner state; step-wise agreement with the reference automaton on consume / end-clean / end-invalid and on the goroutine skeleton; every trace replayed through the public resume loop: snapshot count, skeleton, resume position, error class, and equality of each snapshot with the same dump parsed alone.",
+        "note": "Reference automaton is the trusted base; enabledness of indented symbols is decided from the model state; caps G/F/K stated in the evidence.",
+    },
+    "C08": {
+        "engine": "E1 choice-point explorer",
+        "technique": "exhaustive enumeration of the structural product of a tsan report printer model against ground truth",
+        "text": "Full product of the structural dimensions of a race report (2..3 operations, every subset of goroutines with a creation section, every order of sections, running/finished, foreign section at every position, 4 surroundings) x 8 content assignments (quick) / all content vectors with <=4 deviations (thorough), each parsed by the real ScanSnapshot and compared with the ground truth per goroutine; the race rows of the line grammar are also in the C07 search.",
+        "note": "Trusts the report printer model; a report in which no goroutine has a creation section is outside the statement's format and only its goroutines are checked.",
+    },
     "C13": {
         "engine": "bounded-exhaustive product enumerators",
         "technique": "exhaustive enumeration of all ordered triples of a signature universe on the real comparator + all pair/triple snapshots through Aggregate",
